@@ -232,3 +232,564 @@ def reach_vec(n: int, i: int) -> int:
     post: _ == 0
     """
     return vec(n, i)
+
+
+# =====================================================================================================
+# Extended family (strengthening round): loop-dependent subscript EXPRESSIONS, stepped loop ranges,
+# loops over 2-D / nested / scalar symbols, function for-statements, strided and 2-D slices, degenerate
+# shapes, subscripts computed from Integer parameters, der(x[i]).
+#
+# Conventions:
+#  * every function returns 1 iff the real generate() behaved as C23 demands for these arguments;
+#  * the arguments are CrossHair symbolic integers.  Values that the real code hands to numpy.arange or to
+#    a CasADi constant (loop bounds, literals inside a subscript expression) are forked per value over the
+#    stated window with _concretize (the real code would realise them at that point anyway); values that
+#    only flow through get_integer / the range checks stay symbolic (and unbounded where stated);
+#  * arrays are evaluated on DEC = 1, 10, 100, ... so that a sum of selected elements identifies the
+#    selected multiset (each element at most 9 times);
+#  * _w_<f> is the window predicate: it is the precondition of <f> AND what props/c23.py sweeps concretely
+#    after a counterexample, so that the reported case ids do not depend on which witness z3 picks.
+# =====================================================================================================
+import itertools
+
+DEC = [1.0, 10.0, 100.0, 1000.0, 10000.0, 100000.0, 1000000.0, 10000000.0]
+_F = chstubs.PIN.get("f")  # shard's function (None in a concrete replay: every template is built)
+
+
+def _want(*names):
+    return _F is None or _F in names
+
+
+def _call(m, **given):
+    """Evaluate the real dae_residual_function; inputs not given are zero vectors of the right size."""
+    f = m.dae_residual_function
+    if f.n_out() == 0 or f.numel_out(0) == 0:
+        return []
+    pos = {"x": 1, "der": 2, "alg": 3, "par": 6}
+    args = [[0.0] * f.numel_in(k) for k in range(f.n_in())]
+    args[0] = 0.0
+    for name, vals in given.items():
+        k = pos[name]
+        if len(vals) != f.numel_in(k):
+            raise AssertionError("harness: %s has %d elements, model wants %d" % (name, len(vals), f.numel_in(k)))
+        args[k] = list(vals)
+    r = f(*chstubs.deep_realize(args))
+    return [float(r[k]) for k in range(r.numel())]
+
+
+def _gen(t):
+    """-> model, or None when the real generate() rejects the model."""
+    try:
+        return generator.generate(t, "M", {})
+    except Exception:
+        return None
+
+
+def _gen_c(tpl, mapping):
+    """generate() for an instance ALL of whose literals have been forked to concrete values (loop families: the
+    real code hands them to numpy.arange / CasADi at once).  Nothing symbolic is left to execute, so CrossHair's
+    tracing is switched off for the call (about 500x faster); CrossHair/z3 still enumerate the window."""
+    if chstubs.HAVE_CH:
+        with chstubs.NoTracing():
+            plain = all(type(v) is int for v in mapping.values())
+            if plain:
+                return _gen(_inst(tpl, mapping))
+    return _gen(_inst(tpl, mapping))
+
+
+# ---- subscript expressions of the loop variable ------------------------------------------------------
+IDX_EXPR = {0: "7003 - i", 1: "i + 7003", 2: "7003 * i", 3: "2 * i - 7003", 4: "7003 - 2 * i"}
+
+
+def _ev(kind, c, i):
+    if kind == 0:
+        return c - i
+    if kind == 1:
+        return i + c
+    if kind == 2:
+        return c * i
+    if kind == 3:
+        return 2 * i - c
+    return c - 2 * i
+
+
+FOREXPR_N = (1, 2, 3, 4)
+if _want("forexpr"):
+    T_FOREXPR = {(n, k): _tpl(f"model M\n  Real x[{n}];\nequation\n  for i in 7001:7002 loop\n    x[{e}] = i;\n  end for;\nend M;\n")
+                 for n in FOREXPR_N for k, e in IDX_EXPR.items()
+                 if chstubs.PIN.get("n", n) == n and chstubs.PIN.get("kind", k) == k}
+
+
+def _w_forexpr(n, kind, c, a, b):
+    return n in FOREXPR_N and 0 <= kind <= 4 and 0 <= c <= n + 4 and 1 <= a <= b <= 3
+
+
+def forexpr(n: int, kind: int, c: int, a: int, b: int) -> int:
+    """
+    pre: pin(n=n, kind=kind) and _w_forexpr(n, kind, c, a, b)
+    post: _ == 1
+    """
+    n = _concretize(n, 1, 4)
+    kind = _concretize(kind, 0, 4)
+    c = _concretize(c, 0, n + 4)
+    a = _concretize(a, 1, 3)
+    b = _concretize(b, 1, 3)
+    m = _gen_c(T_FOREXPR[(n, kind)], {7001: a, 7002: b, 7003: c})
+    subs = [_ev(kind, c, i) for i in range(a, b + 1)]
+    ok = all(1 <= e <= n for e in subs)
+    if m is None:
+        return 0 if ok else 1
+    if not ok:
+        return 0
+    got = sorted(_call(m, alg=DEC[:n]))
+    exp = sorted(DEC[e - 1] - i for e, i in zip(subs, range(a, b + 1)))
+    return 1 if got == exp else 0
+
+
+# ---- stepped loop ranges a:s:b ------------------------------------------------------------------------
+FORSTEP_N = (2, 3, 4)
+if _want("forstep"):
+    T_FORSTEP = {n: _tpl(f"model M\n  Real x[{n}];\nequation\n  for i in 7001:7003:7002 loop\n    x[i] = i;\n  end for;\nend M;\n")
+                 for n in FORSTEP_N if chstubs.PIN.get("n", n) == n}
+
+
+def _w_forstep(n, s, a, b):
+    return n in FORSTEP_N and 1 <= s <= 3 and 0 <= a <= n + 2 and a <= b <= n + 3
+
+
+def forstep(n: int, s: int, a: int, b: int) -> int:
+    """
+    pre: pin(n=n, s=s) and _w_forstep(n, s, a, b)
+    post: _ == 1
+    """
+    n = _concretize(n, 2, 4)
+    s = _concretize(s, 1, 3)
+    a = _concretize(a, 0, n + 2)
+    b = _concretize(b, 0, n + 3)
+    m = _gen_c(T_FORSTEP[n], {7001: a, 7002: b, 7003: s})
+    vals = list(range(a, b + 1, s))
+    ok = all(1 <= e <= n for e in vals)
+    if m is None:
+        return 0 if ok else 1
+    if not ok:
+        return 0
+    got = sorted(_call(m, alg=DEC[:n]))
+    exp = sorted(DEC[e - 1] - e for e in vals)
+    return 1 if got == exp else 0
+
+
+# ---- loops over one dimension of a 2-D symbol (plain matrix or array-of-components member) ----------------
+def _mix_text(nest, pos, kind):
+    e = "i" if kind == 0 else "7003 - i"
+    if nest:
+        ref = f"q[{e}].w[7004]" if pos == 0 else f"q[7004].w[{e}]"
+        return f"model Q\n  Real w[3];\nend Q;\nmodel M\n  Q q[2];\nequation\n  for i in 7001:7002 loop\n    {ref} = i;\n  end for;\nend M;\n"
+    ref = f"A[{e}, 7004]" if pos == 0 else f"A[7004, {e}]"
+    return f"model M\n  Real A[2,3];\nequation\n  for i in 7001:7002 loop\n    {ref} = i;\n  end for;\nend M;\n"
+
+
+if _want("formix"):
+    T_FORMIX = {(ne, p, k): _tpl(_mix_text(ne, p, k)) for ne in (0, 1) for p in (0, 1) for k in (0, 1)
+                if chstubs.PIN.get("nest", ne) == ne and chstubs.PIN.get("pos", p) == p and chstubs.PIN.get("kind", k) == k}
+
+
+def _w_formix(nest, pos, kind, c, k, a, b):
+    if not (nest in (0, 1) and pos in (0, 1)):
+        return False
+    if kind == 0:  # A[i, k] / A[k, i]: loop range and the constant subscript sweep past both ends
+        return c == 0 and 0 <= k <= 4 and 0 <= a <= b <= 4
+    if kind == 1:  # A[c - i, k] / A[k, c - i]: descending subscript
+        return 2 <= c <= 5 and 1 <= k <= 2 and 1 <= a <= b <= 3
+    return False
+
+
+def formix(nest: int, pos: int, kind: int, c: int, k: int, a: int, b: int) -> int:
+    """
+    pre: pin(nest=nest, pos=pos, kind=kind) and _w_formix(nest, pos, kind, c, k, a, b)
+    post: _ == 1
+    """
+    nest = _concretize(nest, 0, 1)
+    pos = _concretize(pos, 0, 1)
+    kind = _concretize(kind, 0, 1)
+    c = _concretize(c, 0, 5)
+    a = _concretize(a, 0, 4)
+    b = _concretize(b, 0, 4)
+    k = _concretize(k, 0, 4)
+    m = _gen_c(T_FORMIX[(nest, pos, kind)], {7001: a, 7002: b, 7003: c, 7004: k})
+    dims = (2, 3)
+    subs = [(i if kind == 0 else c - i) for i in range(a, b + 1)]
+    ok = all(1 <= e <= dims[pos] for e in subs) and 1 <= k <= dims[1 - pos]
+    if m is None:
+        return 0 if ok else 1
+    if not ok:
+        return 0
+    got = sorted(_call(m, alg=DEC[:6]))
+    exp = []
+    for e, i in zip(subs, range(a, b + 1)):
+        r, col = (e, k) if pos == 0 else (k, e)
+        exp.append(DEC[(col - 1) * 2 + (r - 1)] - i)
+    return 1 if got == sorted(exp) else 0
+
+
+# ---- loop-variable subscript on a scalar: always an error ---------------------------------------------------
+if _want("forscalar"):
+    T_FORSCALAR = {k: _tpl(f"model M\n  Real s;\nequation\n  for i in 7001:7002 loop\n    s[{e}] = i;\n  end for;\nend M;\n")
+                   for k, e in ((0, "i"), (1, "7003 - i"), (2, "i + 7003"))}
+
+
+def _w_forscalar(kind, c, a, b):
+    return 0 <= kind <= 2 and 0 <= a <= b <= 3 and ((kind == 0 and c == 0) or (kind > 0 and 0 <= c <= 2))
+
+
+def forscalar(kind: int, c: int, a: int, b: int) -> int:
+    """
+    pre: pin(kind=kind) and _w_forscalar(kind, c, a, b)
+    post: _ == 1
+    """
+    kind = _concretize(kind, 0, 2)
+    c = _concretize(c, 0, 2)
+    a = _concretize(a, 0, 3)
+    b = _concretize(b, 0, 3)
+    m = _gen_c(T_FORSCALAR[kind], {7001: a, 7002: b, 7003: c})
+    return 1 if m is None else 0
+
+
+# ---- for-statement in a function's algorithm section ---------------------------------------------------------
+if _want("forfunc"):
+    T_FORFUNC = {k: _tpl("function f\n  input Real x[3];\n  output Real y;\nalgorithm\n  y := 0;\n  for i in 7001:7002 loop\n"
+                         f"    y := y + x[{e}];\n  end for;\nend f;\nmodel M\n  Real x[3];\n  Real y;\nequation\n  y = f(x);\nend M;\n")
+                 for k, e in ((0, "i"), (1, "7003 - i")) if chstubs.PIN.get("kind", k) == k}
+
+
+def _w_forfunc(kind, c, a, b):
+    return ((kind == 0 and c == 0 and 0 <= a <= b <= 5) or (kind == 1 and 2 <= c <= 5 and 1 <= a <= b <= 3))
+
+
+def forfunc(kind: int, c: int, a: int, b: int) -> int:
+    """
+    pre: pin(kind=kind) and _w_forfunc(kind, c, a, b)
+    post: _ == 1
+    """
+    kind = _concretize(kind, 0, 1)
+    c = _concretize(c, 0, 5)
+    a = _concretize(a, 0, 5)
+    b = _concretize(b, 0, 5)
+    m = _gen_c(T_FORFUNC[kind], {7001: a, 7002: b, 7003: c})
+    subs = [(i if kind == 0 else c - i) for i in range(a, b + 1)]
+    ok = all(1 <= e <= 3 for e in subs)
+    if m is None:
+        return 0 if ok else 1
+    if not ok:
+        return 0
+    got = _call(m, alg=DEC[:3] + [0.0])
+    return 1 if got == [-sum(DEC[e - 1] for e in subs)] else 0
+
+
+# ---- strided constant slices on several sizes (quick-tier companion of slice3) -----------------------------
+SLICE3N_N = (1, 2, 3, 4)
+if _want("slice3n"):
+    T_SLICE3N = {n: _tpl(f"model M\n  Real x[{n}];\n  Real y;\nequation\n  y = sum(x[7001:7003:7002]);\nend M;\n")
+                 for n in SLICE3N_N if chstubs.PIN.get("n", n) == n}
+
+
+def _w_slice3n(n, s, a, b):
+    return n in SLICE3N_N and 1 <= s <= 3 and -1 <= a <= n + 2 and -1 <= b <= n + 4
+
+
+def _stepped(a, s, b):
+    sel = []
+    k = a
+    while k <= b:
+        sel.append(k)
+        k += s
+    return sel
+
+
+def slice3n(n: int, s: int, a: int, b: int) -> int:
+    """
+    pre: pin(n=n, s=s) and _w_slice3n(n, s, a, b)
+    post: _ == 1
+    """
+    n = _concretize(n, 1, 4)
+    s = _concretize(s, 1, 3)  # Python's range() needs real integers: forked per value, generate() untraced
+    a = _concretize(a, -1, n + 2)
+    b = _concretize(b, -1, n + 4)
+    sel = _stepped(a, s, b)
+    empty = len(sel) == 0
+    outside = any(k < 1 or k > n for k in sel)
+    m = _gen_c(T_SLICE3N[n], {7001: a, 7002: b, 7003: s})
+    if m is None:
+        return 1 if (outside or empty) else 0
+    if outside:
+        return 0
+    got = _call(m, alg=DEC[:n] + [0.0])
+    if empty:  # "no element selected" (the equation may vanish altogether on a size-1 array, see slice2)
+        return 1 if got in ([], [0.0]) else 0
+    return 1 if got == [-sum(DEC[k - 1] for k in sel)] else 0
+
+
+# ---- slices (plain and strided) in one dimension of a matrix, constant subscript in the other ---------------
+if _want("mslice"):
+    T_MSLICE = {p: _tpl("model M\n  Real A[2,3];\n  Real y;\nequation\n  y = sum(A[%s]);\nend M;\n" % sub)
+                for p, sub in ((0, "7001:7003:7002, 7004"), (1, "7004, 7001:7003:7002"), (2, "7001:7002, 7004"), (3, "7004, 7001:7002"))
+                if chstubs.PIN.get("pos", p % 2) == p % 2}
+
+
+def _w_mslice(pos, s, r, a, b):
+    d = 2 if pos == 0 else 3
+    return pos in (0, 1) and 0 <= s <= 3 and 0 <= a <= d + 1 and 0 <= b <= d + 2 and 0 <= r <= 4  # s == 0: the unstrided spelling a:b
+
+
+def mslice(pos: int, s: int, r: int, a: int, b: int) -> int:
+    """
+    pre: pin(pos=pos, s=s) and _w_mslice(pos, s, r, a, b)
+    post: _ == 1
+    """
+    pos = _concretize(pos, 0, 1)
+    s = _concretize(s, 0, 3)
+    dims = (2, 3)
+    a = _concretize(a, 0, 4)
+    b = _concretize(b, 0, 5)
+    r = _concretize(r, 0, 4)
+    sel = _stepped(a, s if s > 0 else 1, b)
+    empty = len(sel) == 0
+    outside = any(k < 1 or k > dims[pos] for k in sel) or r < 1 or r > dims[1 - pos]
+    m = _gen_c(T_MSLICE[pos if s > 0 else pos + 2], {7001: a, 7002: b, 7003: s, 7004: r})
+    if m is None:
+        return 1 if (outside or empty) else 0
+    if outside:
+        return 0
+    got = _call(m, alg=DEC[:6] + [0.0])
+    if empty:
+        return 1 if all(g == 0.0 for g in got) else 0
+    exp = 0.0
+    for k in sel:
+        row, col = (k, r) if pos == 0 else (r, k)
+        exp += DEC[(col - 1) * 2 + (row - 1)]
+    # sum() of a row keeps one residual entry per element (C11's subject); every selected element must occur once
+    return 1 if (len(got) >= 1 and -sum(got) == exp) else 0
+
+
+# ---- whole-dimension slices A[:, r] / A[r, :] ------------------------------------------------------------
+if _want("mcolon"):
+    T_MCOLON = {0: _tpl("model M\n  Real A[2,3];\n  Real y;\nequation\n  y = sum(A[:, 7004]);\nend M;\n"),
+                1: _tpl("model M\n  Real A[2,3];\n  Real y;\nequation\n  y = sum(A[7004, :]);\nend M;\n")}
+
+
+def _w_mcolon(pos, r):
+    return pos in (0, 1)
+
+
+def mcolon(pos: int, r: int) -> int:
+    """
+    pre: _w_mcolon(pos, r)
+    post: _ == 1
+    """
+    pos = _concretize(pos, 0, 1)
+    dims = (2, 3)
+    m = _gen(_inst(T_MCOLON[pos], {7004: r}))
+    ok = 1 <= r <= dims[1 - pos]
+    if m is None:
+        return 0 if ok else 1
+    if not ok:
+        return 0
+    got = _call(m, alg=DEC[:6] + [0.0])
+    exp = 0.0
+    for k in range(1, dims[pos] + 1):
+        row, col = (k, r) if pos == 0 else (r, k)
+        exp += DEC[(col - 1) * 2 + (row - 1)]
+    return 1 if (len(got) >= 1 and -sum(got) == exp) else 0
+
+
+# ---- degenerate matrix shapes (a single element, a single row, a single column) -----------------------------
+MATN_SHAPES = {0: (1, 1), 1: (1, 3), 2: (3, 1), 3: (2, 2)}
+if _want("matn"):
+    T_MATN = {k: _tpl(f"model M\n  Real A[{r},{c}];\n  Real y;\nequation\n  y = A[7001,7002];\nend M;\n")
+              for k, (r, c) in MATN_SHAPES.items() if chstubs.PIN.get("sh", k) == k}
+
+
+def _w_matn(sh, i, j):
+    return sh in MATN_SHAPES
+
+
+def matn(sh: int, i: int, j: int) -> int:
+    """
+    pre: pin(sh=sh) and _w_matn(sh, i, j)
+    post: _ == 1
+    """
+    sh = _concretize(sh, 0, 3)
+    rows, cols = MATN_SHAPES[sh]
+    m = _gen(_inst(T_MATN[sh], {7001: i, 7002: j}))
+    ok = 1 <= i <= rows and 1 <= j <= cols
+    if m is None:
+        return 0 if ok else 1
+    if not ok:
+        return 0
+    got = _call(m, alg=DEC[:rows * cols] + [0.0])
+    return 1 if got == [-DEC[(j - 1) * rows + (i - 1)]] else 0
+
+
+# ---- subscript shapes that can never be valid: slices / several subscripts on a scalar, too many subscripts ----
+REJECT = {0: ("Real s;", "sum(s[7001:7002])"), 1: ("Real s;", "sum(s[:])"), 2: ("Real s;", "s[7001,7002]"),
+          3: ("Real x[3];", "x[7001,7002]"), 4: ("Real A[2,3];", "A[7001,7002,7001]"), 5: ("Real s;", "sum(s[7001:2:7002])"),
+          6: ("Real x[3];", "sum(x[7001:7002,7001])")}
+if _want("reject"):
+    T_REJECT = {k: _tpl(f"model M\n  {d}\n  Real y;\nequation\n  y = {e};\nend M;\n") for k, (d, e) in REJECT.items()}
+
+
+def _w_reject(kind, i, j):
+    return kind in (1, 2, 3, 4) or (kind in (0, 5, 6) and -2 <= i <= 4 and -2 <= j <= 4)
+
+
+def reject(kind: int, i: int, j: int) -> int:
+    """
+    pre: _w_reject(kind, i, j)
+    post: _ == 1
+    """
+    kind = _concretize(kind, 0, 6)
+    if kind in (0, 5, 6):  # a slice object ends up in the error message: its bounds cannot stay symbolic
+        i = _concretize(i, -2, 4)
+        j = _concretize(j, -2, 4)
+    m = _gen_c(T_REJECT[kind], {7001: i, 7002: j})  # traced when i, j are still symbolic
+    return 1 if m is None else 0
+
+
+# ---- subscripts computed from an Integer parameter / a constant expression ------------------------------------
+PSUB = {0: "x[k]", 1: "x[k + 7002]", 2: "x[k - 7002]", 3: "x[7001 + 7002]", 4: "sum(x[k:k + 7002])", 5: "sum(x[7002:k])", 6: "x[2 * k - 7002]"}
+if _want("psub"):
+    T_PSUB = {q: _tpl(f"model M\n  parameter Integer k = 7001;\n  Real x[3];\n  Real y;\nequation\n  y = {e};\nend M;\n")
+              for q, e in PSUB.items() if chstubs.PIN.get("kind", q) == q}
+
+
+def _w_psub(kind, k, d):
+    if kind == 0:
+        return d == 0  # plain x[k]: k ranges over ALL integers
+    return 1 <= kind <= 6 and 0 <= k <= 5 and 0 <= d <= 4
+
+
+def psub(kind: int, k: int, d: int) -> int:
+    """
+    pre: pin(kind=kind) and _w_psub(kind, k, d)
+    post: _ == 1
+    """
+    kind = _concretize(kind, 0, 6)
+    if kind != 0:  # the literals of an expression become CasADi constants
+        k = _concretize(k, 0, 5)
+        d = _concretize(d, 0, 4)
+    m = _gen_c(T_PSUB[kind], {7001: k, 7002: d})  # traced for kind 0 (k symbolic)
+    if kind == 4:
+        sel = list(range(k, k + d + 1))
+    elif kind == 5:
+        sel = list(range(d, k + 1))
+    else:
+        sel = [{0: k, 1: k + d, 2: k - d, 3: k + d, 6: 2 * k - d}[kind]]
+    empty = len(sel) == 0
+    outside = any(e < 1 or e > 3 for e in sel)
+    if m is None:
+        return 1 if (outside or empty) else 0
+    if outside:
+        return 0
+    got = _call(m, alg=DEC[:3] + [0.0], par=[float(k)])
+    if empty:
+        return 1 if got in ([], [0.0]) else 0
+    return 1 if got == [-sum(DEC[e - 1] for e in sel)] else 0
+
+
+# ---- der(x[i]) ---------------------------------------------------------------------------------------------
+if _want("derv"):
+    T_DERV = _tpl("model M\n  Real x[3];\n  Real y;\nequation\n  der(x[7001]) = y;\nend M;\n")
+
+
+def _w_derv(i):
+    return True
+
+
+def derv(i: int) -> int:
+    """
+    post: _ == 1
+    """
+    m = _gen(_inst(T_DERV, {7001: i}))
+    ok = 1 <= i <= 3
+    if m is None:
+        return 0 if ok else 1
+    if not ok:
+        return 0
+    got = _call(m, x=[0.0, 0.0, 0.0], der=DEC[:3], alg=[0.0])
+    return 1 if got == [DEC[i - 1]] else 0
+
+
+# ---- concrete sweep of a shard's window (used by props/c23.py after a counterexample; no CrossHair) -----------
+SWEEP_BOX = range(-2, 10)
+WINDOWED = {"forexpr": (_w_forexpr, ("n", "kind", "c", "a", "b")), "forstep": (_w_forstep, ("n", "s", "a", "b")),
+            "formix": (_w_formix, ("nest", "pos", "kind", "c", "k", "a", "b")), "forscalar": (_w_forscalar, ("kind", "c", "a", "b")),
+            "forfunc": (_w_forfunc, ("kind", "c", "a", "b")), "slice3n": (_w_slice3n, ("n", "s", "a", "b")),
+            "mslice": (_w_mslice, ("pos", "s", "r", "a", "b")), "mcolon": (_w_mcolon, ("pos", "r")), "matn": (_w_matn, ("sh", "i", "j")),
+            "reject": (_w_reject, ("kind", "i", "j")), "psub": (_w_psub, ("kind", "k", "d")), "derv": (_w_derv, ("i",))}
+
+
+def sweep(func, pinned):
+    """All argument tuples of `func` inside its window (unbounded arguments: inside SWEEP_BOX) that agree with
+    the shard's pinned values and for which the harness function does not return 1."""
+    pred, names = WINDOWED[func]
+    axes = [[pinned[nm]] if nm in pinned else list(SWEEP_BOX) for nm in names]
+    bad = []
+    for args in itertools.product(*axes):
+        if not pred(*args):
+            continue
+        try:
+            res = globals()[func](*args)
+        except Exception as e:  # never on the unchanged tree
+            res = repr(e)
+        if res != 1:
+            bad.append((args, res))
+    return bad
+
+
+def describe(func, args):
+    """The Modelica fragment an argument tuple of an extended-family function stands for (for reports)."""
+    def sub(text, m):
+        for k, v in m.items():
+            text = text.replace(str(k), str(v))
+        return text
+
+    try:
+        if func == "forexpr":
+            n, kind, c, a, b = args
+            return f"Real x[{n}]; for i in {a}:{b} loop x[{sub(IDX_EXPR[kind], {7003: c})}] = i"
+        if func == "forstep":
+            n, s, a, b = args
+            return f"Real x[{n}]; for i in {a}:{s}:{b} loop x[i] = i"
+        if func == "formix":
+            nest, pos, kind, c, k, a, b = args
+            body = _mix_text(nest, pos, kind).split("loop\n")[1].split(";")[0].strip()
+            return ("Q q[2] (Real w[3]); " if nest else "Real A[2,3]; ") + f"for i in {a}:{b} loop " + sub(body, {7003: c, 7004: k})
+        if func == "forscalar":
+            kind, c, a, b = args
+            return f"Real s; for i in {a}:{b} loop s[{sub(('i', '7003 - i', 'i + 7003')[kind], {7003: c})}] = i"
+        if func == "forfunc":
+            kind, c, a, b = args
+            return f"function: input Real x[3]; for i in {a}:{b} loop y := y + x[{'i' if kind == 0 else str(c) + ' - i'}]"
+        if func == "slice3n":
+            n, s, a, b = args
+            return f"Real x[{n}]; y = sum(x[{a}:{s}:{b}])"
+        if func == "mslice":
+            pos, s, r, a, b = args
+            sl = f"{a}:{s}:{b}" if s > 0 else f"{a}:{b}"
+            return "Real A[2,3]; y = sum(A[" + (f"{sl}, {r}" if pos == 0 else f"{r}, {sl}") + "])"
+        if func == "mcolon":
+            pos, r = args
+            return "Real A[2,3]; y = sum(A[" + (f":, {r}" if pos == 0 else f"{r}, :") + "])"
+        if func == "matn":
+            sh, i, j = args
+            return "Real A[%d,%d]; y = A[%d,%d]" % (MATN_SHAPES[sh] + (i, j))
+        if func == "reject":
+            kind, i, j = args
+            return REJECT[kind][0] + " y = " + sub(REJECT[kind][1], {7001: i, 7002: j})
+        if func == "psub":
+            kind, k, d = args
+            return f"parameter Integer k = {k}; Real x[3]; y = " + sub(PSUB[kind], {7001: k, 7002: d})
+        if func == "derv":
+            return f"Real x[3]; der(x[{args[0]}]) = y"
+    except Exception:
+        pass
+    return ""
